@@ -151,10 +151,14 @@ struct Base {
 }
 
 fn base_scenario(rng: &mut Rng, b: &Base) -> (Scenario, Value, u64) {
+    base_scenario_for_host(rng, b, "order.example.org")
+}
+
+fn base_scenario_for_host(rng: &mut Rng, b: &Base, host: &str) -> (Scenario, Value, u64) {
     let claimed = mk::ident(rng, "claimed");
     let authed = mk::ident(rng, "vouched");
     let ping = rng.u64();
-    let p = ScriptParams { intent: b.intent, address: "order.example.org", port: 25565, protocol: 770, claimed: &claimed, locale: "en_us", ping_payload: ping, client_info_delay: Duration::from_secs(3) };
+    let p = ScriptParams { intent: b.intent, address: host, port: 25565, protocol: 770, claimed: &claimed, locale: "en_us", ping_payload: ping, client_info_delay: Duration::from_secs(3) };
     let mut plan = default_plan(&p, mk::secret16(rng));
     // delay Login Acknowledged too, so that premature routing would be visible in the timestamps
     if let Some(pos) = plan.script.iter().position(|a| matches!(a, Act::Send { label, .. } if label == "LoginAcknowledged")) {
@@ -197,6 +201,19 @@ fn generate(cli: &Cli) -> Vec<Case> {
         for _ in 0..cli.scaled(cli.tier.pick(4, 40)) {
             let (sc, status_expected, ping) = base_scenario(&mut rng, b);
             out.push(Case { sc, class: format!("{bname}/baseline"), kind: Kind::Baseline, intent: Some(b.intent), status_expected, ping, honest_enc_response: b.intent != Intent::Status });
+        }
+        // host names of every length up to the 255 the protocol allows, densely where the length
+        // prefix of the handshake frame changes its form (one byte to two at 128) or reads like
+        // something else (0xFE 0x01 = 254 is also how a pre-Netty "legacy ping" begins)
+        {
+            let mut lengths: Vec<usize> = vec![1, 2, 64, 200, 255];
+            lengths.extend(114..=124);
+            lengths.extend(if cli.tier == vp_common::Tier::Quick { 243..=249 } else { 201..=254 });
+            for l in lengths {
+                let host: String = (0..l).map(|i| if i % 9 == 8 { '.' } else { (b'a' + (i % 26) as u8) as char }).collect();
+                let (sc, status_expected, ping) = base_scenario_for_host(&mut rng, b, &host);
+                out.push(Case { sc, class: format!("{bname}/baseline/host-of-{l}-characters"), kind: Kind::Baseline, intent: Some(b.intent), status_expected, ping, honest_enc_response: b.intent != Intent::Status });
+            }
         }
         if b.intent == Intent::Status {
             for _ in 0..3 {
@@ -369,6 +386,35 @@ fn generate(cli: &Cli) -> Vec<Case> {
         sc.client.script = script;
         sc.client.deadline = Duration::from_secs(120);
         out.push(Case { sc, class: format!("blind/{}/{}", b.intent.name(), names.join("+")), kind: Kind::Blind, intent: Some(b.intent), status_expected, ping, honest_enc_response: false });
+    }
+    // the status words every tier sees: requests and pings repeated within one burst (a client that
+    // pings more than once, asks twice, or pings first gets what the grammar allows and no more)
+    for (i, word) in [
+        vec!["StatusRequest", "StatusPing", "StatusPing"],
+        vec!["StatusRequest", "StatusPing", "StatusPing", "StatusPing", "StatusPing"],
+        vec!["StatusRequest", "StatusRequest", "StatusPing"],
+        vec!["StatusRequest", "StatusPing", "StatusRequest", "StatusPing"],
+        vec!["StatusPing", "StatusRequest"],
+        vec!["StatusPing", "StatusPing"],
+        vec!["StatusRequest", "StatusPing", "Handshake"],
+    ]
+    .into_iter()
+    .enumerate()
+    {
+        let mut rng = Rng::stream(cli.seed, 62_000 + i as u64);
+        let b = &bases[0];
+        let (mut sc, status_expected, ping) = base_scenario(&mut rng, b);
+        let pool = deviants(&mut rng);
+        let mut script = vec![sc.client.script[0].clone()];
+        for n in &word {
+            if let Some((_, p)) = pool.iter().find(|(name, _)| name == n) {
+                script.push(Act::Send { label: format!("blind:{n}"), out: Out::Pkt(p.clone()) });
+            }
+        }
+        script.push(Act::AwaitClose);
+        sc.client.script = script;
+        sc.client.deadline = Duration::from_secs(120);
+        out.push(Case { sc, class: format!("blind/{}/{}", b.intent.name(), word.join("+")), kind: Kind::Blind, intent: Some(b.intent), status_expected, ping, honest_enc_response: false });
     }
     out
 }
